@@ -438,4 +438,55 @@ def certTop (o : Oracle) (p p' : Pat) : Bool := (cert o false p p').close.errs.i
     rewrite such patterns; a right-to-left pair is certified when only tail-position rewrites were made) -/
 def certTopDir (o : Oracle) (rtl : Bool) (p p' : Pat) : Bool := (cert o rtl p p').close.errs.isEmpty
 
+/-! ## `eliminateEndingBacktracking` as a function (left-to-right) -/
+
+/-- the children of a Concatenate/Capture that get an Atomic wrapper when they come last
+    (`existingChild.T == NtAlternate || … NtBackRefCond || NtExprCond || NtLoop || NtLazyloop`) -/
+def wrappable : Pat → Bool
+  | .alt _ _ => true
+  | .refCond _ _ _ => true
+  | .exprCond _ _ _ => true
+  | .quant _ _ _ (.chr _) => false
+  | .quant _ _ _ _ => true
+  | _ => false
+
+def wrapIf (c : Bool) (orig p : Pat) : Pat := if c && wrappable orig then .atomic p else p
+
+/-- `endAtomic pa p`: what `eliminateEndingBacktracking` makes of the left-to-right tree `p` whose
+    parent is (`pa`) or is not an Atomic node: single-character loops become atomic (lazy ones the
+    repeater of their minimum, Empty for minimum 0), the last child of a Concatenate / the child of a
+    Capture is processed and wrapped in Atomic when it is an alternation, conditional or loop (unless
+    the parent is already Atomic), all branches of alternations and conditionals, the bodies of Atomic
+    groups and lookaheads, lazy loops are cut to their minimum, loops with maximum 1 are entered.
+    Not modelled: the descent `FindLastExpressionInLoopForAutoAtomic` (it needs `canBeMadeAtomic`;
+    `cert` covers it), lookbehind bodies, the Multi form of small One repeaters. -/
+def endAtomic (pa : Bool) : Pat → Pat
+  | .quant lzy lo hi x =>
+    match x with
+    | .chr q =>
+      if lzy then
+        if hiAtLeast hi lo then (if lo = 0 then .empty else .atomic (.quant false lo (some lo) (.chr q)))
+        else .quant lzy lo hi (.chr q)
+      else .atomic (.quant false lo hi (.chr q))
+    | _ =>
+      let hi' := if lzy = true ∧ hiAtLeast hi lo = true then some lo else hi
+      if hi' = some 1 then .quant lzy lo hi' (endAtomic false x) else .quant lzy lo hi' x
+  | .atomic x =>
+    match x with
+    | .quant false lo hi (.chr q) => .atomic (.quant false lo hi (.chr q))
+    | _ => .atomic (endAtomic true x)
+  | .look false ng x => .look false ng (endAtomic false x)
+  | .seq a b =>
+    match b with
+    | .seq _ _ => .seq a (endAtomic pa b)
+    | _ => .seq a (wrapIf (!pa) b (endAtomic false b))
+  | .cap g a => .cap g (wrapIf (!pa) a (endAtomic false a))
+  | .alt a b => .alt (endAtomic false a) (endAtomic false b)
+  | .refCond g y n => .refCond g (endAtomic false y) (endAtomic false n)
+  | .exprCond c y n => .exprCond c (endAtomic false y) (endAtomic false n)
+  | p => p
+
+/-- at the root (`finalOptimize`: the implicit capture 0 has no parent) -/
+def endAtomicTop (p : Pat) : Pat := wrapIf true p (endAtomic false p)
+
 end RegexVerif.AutoAtomic
